@@ -98,7 +98,9 @@ def match_world(h, n_rest, allow_new=True, hook_cancels=True):
     pos = Obj(None, {'current_price': None}, name='position')
     W.pos = pos
     app = Obj(None, {'time': Fraction(0)})
-    reg = Obj(None, {'get_active_orders': Builtin('get_active_orders', lambda i, a, k: W.active)})
+    # the registry hands out its current list at each call and may swap it for a fresh one (reset_trade_orders does): callers
+    # must not rely on an earlier result staying aliased with the registry
+    reg = Obj(None, {'get_active_orders': Builtin('get_active_orders', lambda i, a, k: list(W.active))})
     cstate = Obj(None, {'add_candle': Builtin('add_candle', lambda i, a, k: W.ev.append(('add_candle', tuple(a)))),
                         'add_multiple_1m_candles': Builtin('add_multiple', lambda i, a, k: W.ev.append(('add_multiple', tuple(a))))})
     store = Obj(None, {'orders': reg, 'candles': cstate, 'app': app})
@@ -206,6 +208,9 @@ def t_continuation(h):
             filled = any(e[0] == 'execute' and e[1][0] is nw for e in W.ev)
             h.prove(ops.implies(filled, h.spec('includes', later, nw.f['price'])),
                     'continuation.reaction-order-fills-only-on-the-path-after-the-fill')
+            # ... and it is not left behind: "from its submission onward" the rest of this minute's path counts
+            h.prove(ops.implies(ops.equal(nw.f['status'], 'ACTIVE'), ops.lnot(h.spec('includes', later, nw.f['price']))),
+                    'continuation.reaction-order-inside-the-remaining-path-is-filled-in-the-same-minute')
 
 
 def gap_extended(chunk, j):
